@@ -418,3 +418,19 @@ Section Store.
       + apply N.
   Qed.
 End Store.
+
+(* ---------- the loop `for w in popped: cls.invalidate(w)` of cleanup ---------- *)
+Lemma invalidate_all_spec n ds c c' :
+  invalidate_all n ds c = Some c' ->
+  Post c c' /\ (forall d, In d ds -> alookup (widgets c') d = None) /\ (RefsOK c -> RefsOK c').
+Proof. unfold invalidate_all. apply invalidate_fold_spec. apply invalidate_spec. Qed.
+
+Lemma invalidate_all_total n : forall ds c,
+  (length (deps c) < n)%nat ->
+  exists c', invalidate_all n ds c = Some c' /\ (length (deps c') <= length (deps c))%nat.
+Proof.
+  unfold invalidate_all. induction ds as [|d ds IH]; intros c L; cbn [fold_left].
+  - exists c. split; [reflexivity|lia].
+  - destruct (invalidate_total n c d L) as [c1 [E1 L1]]. rewrite E1.
+    destruct (IH c1 ltac:(lia)) as [c2 [E2 L2]]. exists c2. split; [exact E2|lia].
+Qed.
